@@ -148,6 +148,12 @@ int main(int argc, char* argv[]) {
             printf("%s %d %d %d", c == "gf" ? "G" : "GC", i, j, int(g->isVanishing()));
             for (int k = 0; k < nz; ++k) printf(" %s", pv::hexc((*g)(ComplexType(D(t[4 + 2 * k]), D(t[5 + 2 * k])))).c_str());
             printf("\n");
+            {
+                GreensFunction gcopy(*g);      // a copy of the evaluated object (user-written copy constructor): same layout as G / GC
+                printf("%s %d %d %d", c == "gf" ? "GCOPY" : "GCCOPY", i, j, int(gcopy.isVanishing()));
+                for (int k = 0; k < nz; ++k) printf(" %s", pv::hexc(gcopy(ComplexType(D(t[4 + 2 * k]), D(t[5 + 2 * k])))).c_str());
+                printf("\n");
+            }
             delete own;
         } else if (c == "gfn") {
             // gfn <i> <j> <n...>   Matsubara numbers; also prints the frequency the library used
@@ -243,6 +249,14 @@ int main(int argc, char* argv[]) {
             printf("SUSC %d %d %d %d %d %d", a, b, cc, d, mode, int(chi.isVanishing()));
             for (size_t k = 6; k < t.size(); ++k) printf(" %ld %s", L(t[k]), pv::hexc(chi(long(L(t[k])))).c_str());
             printf("\n");
+            {
+                // a copy of the evaluated object (user-written copy constructor; std::vector<Susceptibility>, pass by value): the copy is
+                // the same susceptibility with the same subtraction, so its values must be the original's -- same layout as SUSC
+                Susceptibility chic(chi);
+                printf("SUSCCOPY %d %d %d %d %d %d", a, b, cc, d, mode, int(chic.isVanishing()));
+                for (size_t k = 6; k < t.size(); ++k) printf(" %ld %s", L(t[k]), pv::hexc(chic(long(L(t[k])))).c_str());
+                printf("\n");
+            }
             EnsembleAverage EA2(*ed->S, *ed->H, A, *ed->rho), EB2(*ed->S, *ed->H, B, *ed->rho);
             EA2.prepare(); EB2.prepare();
             printf("SUSCAVG %s %s\n", pv::hexc(EA2.getResult()).c_str(), pv::hexc(EB2.getResult()).c_str());
@@ -256,6 +270,12 @@ int main(int argc, char* argv[]) {
             printf("SUSCTAU %d %d %d %d %d", a, b, cc, d, mode);
             for (size_t k = 6; k < t.size(); ++k) printf(" %s", pv::hexc(chi.of_tau(D(t[k]))).c_str());
             printf("\n");
+            {
+                Susceptibility chic(chi);      // a copy of the evaluated object: same layout as SUSCTAU
+                printf("SUSCTAUCOPY %d %d %d %d %d", a, b, cc, d, mode);
+                for (size_t k = 6; k < t.size(); ++k) printf(" %s", pv::hexc(chic.of_tau(D(t[k]))).c_str());
+                printf("\n");
+            }
         } else if (c == "suscterms") {
             int a = L(t[1]), b = L(t[2]), cc = L(t[3]), d = L(t[4]);
             QuadraticOperator A(*ed->Idx, *ed->S, *ed->H, a, b); A.prepare(); A.compute();
